@@ -23,6 +23,47 @@ CHECKS = {
     ),
 }
 
+TV = "TLA+ reference semantics (Grammars.tla) evaluated by TLC on every recorded call of the real code (trace validation)"
+CHECKS.update({
+    "C01": dict(
+        text=("Every recorded BoolCFGLM(cfg, alg).p_next(ctx) call (both back-ends, Boolean and Float grammars with nullary "
+              "rules, unary cycles, recursion; all contexts up to L, viable or not, and contexts containing eos) is judged "
+              "by TLC: keys = {t : PrefixWeight_Bool(G, ctx.t) # 0} plus eos iff Weight_Bool(G, ctx) # 0, where "
+              "PrefixWeight is the least fixed point of the prefix-inside equations (sums over the infinitely many "
+              "completions exactly)."),
+        ref="DESIGN.md section 6 (C01)", technique=TV),
+    "C03": dict(
+        text=("prefix_weight, prefix_grammar (the code's output grammar is evaluated by the oracle on all prefixes), "
+              "derivatives(p)[-1].treesum(), derivative(a) as a grammar and derivative(a)(y) are judged by TLC against "
+              "PrefixWeight / Weight of Grammars.tla over Sat(3)/Sat(2)/Bool (cyclic grammars, infinitely many "
+              "completions, exact by finiteness of the semiring) and exact rationals (finite languages)."),
+        ref="DESIGN.md section 6 (C03)", technique=TV),
+    "C06": dict(
+        text=("Every transformation (trim, cotrim, binarize, separate_start, separate_terminals, nullaryremove with its "
+              "options, unaryremove, unarycycleremove, cnf, renumber, rename, unfold) and random pipelines of 2-3 of them "
+              "are run on random and hand-picked grammars; TLC evaluates Weight(out, s) = Weight(in, s) on the code's "
+              "output grammar for all strings up to L, over Sat(3) (nullable x unary cycles are finite sums there), Sat(2), "
+              "Bool, exact rationals and MaxTimes."),
+        ref="DESIGN.md section 6 (C06)", technique=TV),
+    "C07": dict(
+        text=("Same recorded calls as C06; TLC evaluates the structural predicates of Grammars.tla (InCNF, "
+              "NoNullaryExceptStart, NoUnary, NoUnaryCycle, ArityLeq2, StartNotOnRhs, TerminalsOnlyInPreterminals, "
+              "Trimmed, CoTrimmed) on the code's output grammar; grammars with a non-generating start symbol, useless "
+              "symbols, nullable and unary cycles are forced into every run."),
+        ref="DESIGN.md section 6 (C07)", technique=TV),
+    "C08": dict(
+        text=("agenda() and naive_bottom_up() charts (every nonterminal) and expected_length are judged by TLC against the "
+              "least fixed point of the grammar's polynomial system (TreeSum in Grammars.tla; expectation semiring "
+              "lifting for expected length): Sat(3)/Sat(2)/Bool with arbitrary recursion, exact rationals and MaxTimes on "
+              "grammars with finitely many derivations."),
+        ref="DESIGN.md section 6 (C08)", technique=TV),
+    "C20": dict(
+        text=("locally_normalize on exact-rational grammars (per-head sums one, total weight one, Weight'(x) * Z = "
+              "Weight(x) for all x up to L) and add_EOS over all semirings (Weight(x eos) = Weight(x), zero unless "
+              "exactly one trailing eos), each recorded call judged by TLC on the code's output grammar."),
+        ref="DESIGN.md section 6 (C20)", technique=TV),
+})
+
 NOT_APPLICABLE = {}
 
 
